@@ -14,6 +14,7 @@ import (
 	"strconv"
 	"strings"
 	"time"
+	"unicode/utf8"
 
 	"github.com/btcsuite/btcd/btcec/v2/schnorr"
 )
@@ -1332,20 +1333,79 @@ func (ev *Event) Serialize() ([]byte, error) {
 		return nil, errors.New("nil event")
 	}
 
-	v := [6]any{
-		0,
-		ev.Pubkey,
-		ev.CreatedAt,
-		ev.Kind,
-		ev.Tags,
-		ev.Content,
+	// NIP-01: compact JSON of [0,pubkey,created_at,kind,tags,content] in which strings use only
+	// the mandated escapes. encoding/json cannot be used for the strings: it also escapes
+	// <, >, &, U+2028 and U+2029, which changes the hash of events containing them.
+	ret := make([]byte, 0, 256+len(ev.Content))
+	ret = append(ret, "[0,"...)
+	ret = appendNIP01String(ret, ev.Pubkey)
+	ret = append(ret, ',')
+	ret = strconv.AppendInt(ret, ev.CreatedAt, 10)
+	ret = append(ret, ',')
+	ret = strconv.AppendInt(ret, ev.Kind, 10)
+	ret = append(ret, ',')
+	if ev.Tags == nil {
+		ret = append(ret, "null"...)
+	} else {
+		ret = append(ret, '[')
+		for i, tag := range ev.Tags {
+			if i > 0 {
+				ret = append(ret, ',')
+			}
+			if tag == nil {
+				ret = append(ret, "null"...)
+				continue
+			}
+			ret = append(ret, '[')
+			for j, elem := range tag {
+				if j > 0 {
+					ret = append(ret, ',')
+				}
+				ret = appendNIP01String(ret, elem)
+			}
+			ret = append(ret, ']')
+		}
+		ret = append(ret, ']')
 	}
+	ret = append(ret, ',')
+	ret = appendNIP01String(ret, ev.Content)
+	ret = append(ret, ']')
 
-	ret, err := json.Marshal(&v)
-	if err != nil {
-		return nil, fmt.Errorf("failed to marshal event: %w", err)
-	}
 	return ret, nil
+}
+
+// appendNIP01String appends s as a JSON string literal that uses only the escapes NIP-01
+// mandates (\" \\ \n \r \t \b \f), writes the remaining C0 controls as \u00xx and every
+// other character verbatim. Invalid UTF-8 becomes U+FFFD, as with encoding/json.
+func appendNIP01String(dst []byte, s string) []byte {
+	const hexDigits = "0123456789abcdef"
+
+	dst = append(dst, '"')
+	for _, r := range s {
+		switch r {
+		case '"':
+			dst = append(dst, '\\', '"')
+		case '\\':
+			dst = append(dst, '\\', '\\')
+		case '\n':
+			dst = append(dst, '\\', 'n')
+		case '\r':
+			dst = append(dst, '\\', 'r')
+		case '\t':
+			dst = append(dst, '\\', 't')
+		case '\b':
+			dst = append(dst, '\\', 'b')
+		case '\f':
+			dst = append(dst, '\\', 'f')
+		default:
+			if r < 0x20 {
+				dst = append(dst, '\\', 'u', '0', '0', hexDigits[r>>4], hexDigits[r&0xf])
+			} else {
+				dst = utf8.AppendRune(dst, r)
+			}
+		}
+	}
+	return append(dst, '"')
 }
 
 func (ev *Event) Verify() (bool, error) {
